@@ -32,12 +32,21 @@ OPS = {'+': operator.add, '-': operator.sub, '*': operator.mul, '/': operator.tr
 
 
 # ------------------------------------------------------------------ operand catalogue
+BD = {'B|r1': 'c8', 'B|r2': 'ev'}
+
+
+def _lay(lays, i):
+    return i if isinstance(i, dict) else lays[i]
+
+
 def catalogue(tier):
     lays = alpha.layouts(tier)
     cat = [{'t': 'obs', 'lay': i} for i in range(len(lays))]
     cat += [{'t': 'obscov', 'lay': 0, 'cov': 0, 'pos': 0}, {'t': 'obscov', 'lay': 5, 'cov': 1, 'pos': 1},
             {'t': 'cov', 'cov': 1, 'pos': 0}, {'t': 'cov', 'cov': 1, 'pos': 1}, {'t': 'cov', 'cov': 2, 'pos': 2},
-            {'t': 'multi', 'lays': [0, 11]}, {'t': 'multi', 'lays': [8, 11], 'cov': 0}]
+            {'t': 'multi', 'lays': [0, 11]}, {'t': 'multi', 'lays': [8, 11], 'cov': 0},
+            # operands on two ensembles that lack a whole replica of the second / of the first / of neither ensemble
+            {'t': 'multi', 'lays': [8, 11]}, {'t': 'multi', 'lays': [0, BD]}, {'t': 'multi', 'lays': [8, BD]}]
     if tier == 'thorough':
         cat += [{'t': 'cov', 'cov': 0, 'pos': 0}, {'t': 'cov', 'cov': 3, 'pos': 1}, {'t': 'multi', 'lays': [10, 11, 13]},
                 {'t': 'obscov', 'lay': 8, 'cov': 2, 'pos': 0}]
@@ -87,7 +96,7 @@ def chain_sets(s, tier):
     if t == 'multi':
         d = {}
         for i in s['lays']:
-            d.update(lays[i])
+            d.update(_lay(lays, i))
         return d
     if t == 'cobs':
         d = dict(chain_sets(s['re'], tier))
@@ -118,7 +127,7 @@ def build_operand(pe, s, tier, key, mean, sigma=0.05):
     if t == 'multi':
         o = None
         for j, i in enumerate(s['lays']):
-            p, _ = build_operand(pe, {'t': 'obs', 'lay': i}, tier, (key, j), mean / len(s['lays']), sigma)
+            p = alpha.make_obs(pe, _lay(lays, i), (key, j), 'white', mean / len(s['lays']), sigma)[0]
             o = p if o is None else o + p
         if 'cov' in s:
             c, _ = build_operand(pe, {'t': 'cov', 'cov': s['cov'], 'pos': 0}, tier, key, 1.0, sigma)
